@@ -11,7 +11,8 @@ usage: selftest_seeds.py [<seed dir name> ...]     (default: all)
 import json, os, shutil, subprocess, sys, time
 
 VERIF = os.path.dirname(os.path.abspath(__file__))
-SCRATCH = os.environ.get("VERIF_SELFTEST_SCRATCH", "/tmp/verif-selftest-repo-%d" % os.getpid())
+SCRATCH_BASE = os.environ.get("VERIF_SELFTEST_SCRATCH", "/tmp/verif-selftest-repo-%d" % os.getpid())
+SCRATCH = SCRATCH_BASE
 
 def run(cmd, **kw):
     return subprocess.run(cmd, stdout=subprocess.PIPE, stderr=subprocess.STDOUT, text=True, **kw)
@@ -27,6 +28,12 @@ def main():
             continue
         meta = json.load(open(os.path.join(d, "meta.json"))) if os.path.exists(os.path.join(d, "meta.json")) else {}
         props = meta.get("checked_by") or [meta.get("property", sd[:3])]
+        # one scratch path PER SEED: cargo decides freshness by mtime, and `rsync -a` restores a file that the
+        # previous seed had patched with its OLD mtime, which cargo does not notice - the previous seed's
+        # change would silently stay in the harness binary (this happened: C03-2a was first "caught" through
+        # the strip_quotes panic of C01-2b). A new path is a new package id, so everything is rebuilt.
+        global SCRATCH
+        SCRATCH = SCRATCH_BASE + "-" + sd
         shutil.rmtree(SCRATCH, ignore_errors=True)
         run(["rsync", "-a", "--exclude", "target", "--exclude", ".git", "/repo/", SCRATCH + "/"])
         r = run(["git", "apply", "--unsafe-paths", "--directory", SCRATCH, patch], cwd="/")
